@@ -682,48 +682,107 @@ def _r2(ctx):
         ctx.holds(f, ret, "histogram: cycle values pass through unchanged, only the index is rebuilt")
     else:
         ctx.violated(f, ret, "histogram scale/shift does not pass the cycle values through unchanged")
-    fparam = f.params[1] if f.params[0] == "self" else f.params[0]
-    inner = [n for n in ast.walk(f.node) if isinstance(n, ast.FunctionDef) and n is not f.node and
-             any(isinstance(c.func, ast.Name) and c.func.id == fparam for c in calls_in(n))]
-    if len(inner) != 1:
-        raise AnalysisError("_shift_or_scale: level transformation helper not found")
-    inner = inner[0]
-    fcalls = [c for c in calls_in(inner) if isinstance(c.func, ast.Name) and c.func.id == fparam]
-    fa = [c for c in calls_in(inner) if (call_name(c) or "").endswith("IntervalIndex.from_arrays")]
-    if len(fcalls) != 2 or len(fa) != 1 or len(fa[0].args) != 2:
-        raise AnalysisError("_shift_or_scale: level transformation uses an idiom that is not modelled")
-    env = {s.targets[0].id: s.value for s in inner.body if isinstance(s, ast.Assign) and isinstance(s.targets[0], ast.Name)}
-    edges = []
-    for a in fa[0].args:
-        v = env.get(a.id) if isinstance(a, ast.Name) else a
-        if not (isinstance(v, ast.Call) and v in fcalls and isinstance(v.args[0], ast.Attribute)):
-            raise AnalysisError("_shift_or_scale: interval edges are not func(<level>.<edge>, operand)")
-        edges.append((v.args[0].attr, norm_text(v.args[0].value), norm_text(v.args[1])))
-    same = edges[0][1:] == edges[1][1:] and [e[0] for e in edges] == ["left", "right"]
-    g = [s for s in inner.body if isinstance(s, ast.If) and s.body and isinstance(s.body[-1], ast.Return)]
-    lvl = inner.args.args[0].arg
-    guard_ok = False
-    if g:
-        tests = [norm_text(x) for x in (g[0].test.values if isinstance(g[0].test, ast.BoolOp) and isinstance(g[0].test.op, ast.Or)
-                                        else [g[0].test])]
-        guard_ok = any("not in self._impl.index_names" in t for t in tests) and any(t.endswith("in skip") for t in tests)
-        rv = g[0].body[-1].value
-        guard_ok = guard_ok and isinstance(rv, ast.Name) and isinstance(env.get(rv.id), ast.Call) and \
-            isinstance(env[rv.id].func, ast.Attribute) and env[rv.id].func.attr == "get_level_values"
-    if same and guard_ok:
-        ctx.holds(f, inner, "only load interval levels (not skipped) are transformed, both edges with the same function and operand")
+    # ---- the per-level transformation, as a symbolic value: a closure mapped over the level names, or the body of a loop
+    # over them (private helpers expanded) that appends the new level
+    import copy
+    from ..absint import Interp, TermDomain, term_select, term_walk
+    from ..inline import inlined
+    fparam, oparam, sparam = [p_ for p_ in f.params if p_ != "self"][:3]
+    clos = [fi_ for k_, fi_ in prog.functions.items() if fi_.parent is not None and fi_.parent.key == f.key and
+            any(isinstance(c.func, ast.Name) and c.func.id == fparam for c in calls_in(fi_.node))]
+    where = None
+    if len(clos) == 1:
+        tfi, where = clos[0], clos[0].node
     else:
-        ctx.violated(f, inner, "histogram level transformation %s" % (
-            "treats the two interval edges differently: %s" % edges if not same else
+        fl = inlined(prog, f)
+        loops = [s_ for s_ in walk_function(fl.node) if isinstance(s_, ast.For) and isinstance(s_.target, ast.Name) and
+                 any((call_name(c) or "").endswith("IntervalIndex.from_arrays") for c in calls_in(s_)) and s_.body and
+                 isinstance(s_.body[-1], ast.Expr) and isinstance(s_.body[-1].value, ast.Call) and
+                 isinstance(s_.body[-1].value.func, ast.Attribute) and s_.body[-1].value.func.attr == "append" and
+                 len(s_.body[-1].value.args) == 1]
+        if len(loops) != 1:
+            raise AnalysisError("_shift_or_scale: the per-level transformation (closure mapped over the level names / loop that "
+                                "appends the new level) was not found")
+        lp = loops[0]
+        fn = ast.FunctionDef(name="__level__", args=ast.arguments(posonlyargs=[], args=[ast.arg(arg=lp.target.id)], kwonlyargs=[],
+                                                                kw_defaults=[], defaults=[]),
+                             body=list(lp.body[:-1]) + [ast.Return(value=lp.body[-1].value.args[0])], decorator_list=[],
+                             lineno=lp.lineno, col_offset=0)
+        ast.fix_missing_locations(fn)
+        tfi = copy.copy(fl)
+        tfi.node = fn
+        where = lp
+    # names bound once in the enclosing function to `<param> or <literal>` stand for the parameter
+    alias = {}
+    for s_ in walk_function(f.node):
+        if isinstance(s_, ast.Assign) and len(s_.targets) == 1 and isinstance(s_.targets[0], ast.Name):
+            v_ = s_.value
+            if isinstance(v_, ast.BoolOp) and isinstance(v_.op, ast.Or) and isinstance(v_.values[0], ast.Name):
+                alias[s_.targets[0].id] = v_.values[0].id
+            if isinstance(v_, ast.Tuple) is False and isinstance(s_.value, ast.Call) and False:
+                pass
+    bcast = None
+    for s_ in walk_function(f.node):
+        if isinstance(s_, ast.Assign) and isinstance(s_.targets[0], ast.Tuple) and isinstance(s_.value, ast.Call) and \
+                isinstance(s_.value.func, ast.Attribute) and s_.value.func.attr == "broadcast" and len(s_.targets[0].elts) == 2 and \
+                s_.value.args and isinstance(s_.value.args[0], ast.Name) and s_.value.args[0].id == oparam and \
+                isinstance(s_.targets[0].elts[0], ast.Name):
+            bcast = s_.targets[0].elts[0].id
+    term = Interp(prog, TermDomain(), max_depth=3, single_exit=True).run(tfi, [("p", q) for q in tfi.params if q != "self"])
+
+    def is_skip(t):
+        return isinstance(t, tuple) and len(t) == 2 and t[0] in ("g", "p") and (t[1] == sparam or alias.get(t[1]) == sparam)
+
+    def truth_for(a_val, b_val):
+        def truth(c):
+            if isinstance(c, tuple) and len(c) == 4 and c[0] == "cmp" and c[1] == "in":
+                if isinstance(c[3], tuple) and c[3][0] == "attr" and c[3][-1] == "index_names":
+                    return a_val
+                if is_skip(c[3]):
+                    return b_val
+            return None
+        return truth
+    leaves = {(a_, b_): term_select(term, truth_for(a_, b_)) for a_ in (True, False) for b_ in (True, False)}
+    if any(v_ is None for v_ in leaves.values()):
+        raise AnalysisError("_shift_or_scale: the guard of the level transformation was not understood")
+
+    def transformed(t):
+        return isinstance(t, tuple) and t and t[0] == "call" and t[1].endswith("IntervalIndex.from_arrays")
+    tr = leaves[(True, False)]
+    untouched = [leaves[k_] for k_ in ((True, True), (False, True), (False, False))]
+    same = guard_ok = False
+    edges = None
+    if transformed(tr) and len(tr[2]) == 2 and all(isinstance(x_, tuple) and x_[0] == "call" and x_[1] == fparam and len(x_[2]) == 2
+                                                   for x_ in tr[2]):
+        e0, e1 = tr[2]
+        edges = [(x_[2][0][2] if isinstance(x_[2][0], tuple) and x_[2][0][0] == "attr" else None, x_[2][0][1] if
+                  isinstance(x_[2][0], tuple) and x_[2][0][0] == "attr" else None, x_[2][1]) for x_ in (e0, e1)]
+        same = [e_[0] for e_ in edges] == ["left", "right"] and edges[0][1:] == edges[1][1:] and \
+            edges[0][2] in (("g", bcast), ("p", bcast), ("g", oparam), ("p", oparam)) and bcast is not None and \
+            edges[0][2][1] == bcast
+        base = edges[0][1]
+        guard_ok = all(u_ == base and not any(transformed(x_) for x_ in term_walk(u_)) for u_ in untouched) and \
+            isinstance(base, tuple) and base[0] == "call" and base[1].endswith("get_level_values")
+    elif not transformed(tr):
+        raise AnalysisError("_shift_or_scale: the transformed level is not IntervalIndex.from_arrays(func(left, .), func(right, .))")
+    if same and guard_ok:
+        ctx.holds(f, where, "only load interval levels (not skipped) are transformed, both edges with the same function and the "
+                  "broadcast operand; the other levels are returned untouched")
+    else:
+        ctx.violated(f, where, "histogram level transformation %s" % (
+            "treats the two interval edges differently or not with the broadcast operand: %s" % (edges,) if not same else
             "does not return non-load / skipped levels untouched"), text="level transform")
     for name, op, skip in (("scale", ast.Mult, None), ("shift", ast.Add, ["range"])):
         m = prog.lookup_method(lh, name)
         c = [c for c in calls_in(m.node) if isinstance(c.func, ast.Attribute) and c.func.attr == "_shift_or_scale"]
-        ok = len(c) == 1 and isinstance(c[0].args[0], ast.Lambda) and isinstance(c[0].args[0].body, ast.BinOp) and \
-            isinstance(c[0].args[0].body.op, op) and \
-            {norm_text(c[0].args[0].body.left), norm_text(c[0].args[0].body.right)} == {a.arg for a in c[0].args[0].args.args}
+        if len(c) != 1 or not c[0].args:
+            raise AnalysisError("histogram %s: call of _shift_or_scale not found" % name)
+        fa_ = c[0].args[0]
+        ok = isinstance(fa_, ast.Lambda) and isinstance(fa_.body, ast.BinOp) and isinstance(fa_.body.op, op) and \
+            {norm_text(fa_.body.left), norm_text(fa_.body.right)} == {a.arg for a in fa_.args.args}
+        ok = ok or norm_text(fa_) in (("operator.mul", "np.multiply") if op is ast.Mult else ("operator.add", "np.add"))
         sk = next((k.value for k in c[0].keywords if k.arg == "skip"), None) if c else None
-        got_skip = [const_value(x) for x in sk.elts] if isinstance(sk, ast.List) else None
+        got_skip = [const_value(x) for x in sk.elts] if isinstance(sk, (ast.List, ast.Tuple)) else None
         ok = ok and got_skip == skip
         if ok:
             ctx.holds(m, c[0], "histogram %s: levels %s, skip=%s" % (name, "x*y" if op is ast.Mult else "x+y", skip))
